@@ -17,3 +17,4 @@ from contracts import rowio_writers as RW
 UNITS += [RW.unit_fixed_row_writer_write_row().also("C20"), RW.unit_delimited_row_writer_write_row().also("C20")]
 from props import _groups as _G
 UNITS = _G.with_groups(PROPERTY, UNITS, _G.READERS, _G.VALIDATION, _G.CHECKS, _G.WRITERS)
+UNITS += [PR.unit_late_classes()]
